@@ -121,12 +121,36 @@ pub fn gen_ast_doc(seed: u64, stream: u64, i: u64, inline: bool, nothing_ready: 
     gc.max_depth = if r.chance(1, 4) { 4 } else { 3 };
     gc.words = gen::words_for(&[&sp]);
     gc.odd_wrappers = r.chance(1, 4);
+    gc.wrapper_tags = inline && r.chance(1, 3);
+    gc.inline_tabs = inline && r.chance(1, 3);
     let mut d = gen_block_doc(&mut r, &gc);
     if nothing_ready {
         make_nothing_ready(&mut d, &mut r);
     }
     let multiline = inline && r.chance(1, 3);
     (render_with(&d, &sp, multiline), sp)
+}
+
+/// Put carriage returns into the text pieces: mode 0 = every line break becomes CRLF,
+/// 1 = a random subset (mixed line endings), 2 = a few lone CRs inside lines.
+fn crlf_pieces(ps: &mut [Piece], r: &mut Rng, mode: usize) {
+    for p in ps.iter_mut() {
+        match p {
+            Piece::Text(t) => {
+                let mut s = String::with_capacity(t.len() + 8);
+                for c in t.chars() {
+                    match (c, mode) {
+                        ('\n', 0) => s.push_str("\r\n"),
+                        ('\n', 1) if r.chance(1, 2) => s.push_str("\r\n"),
+                        (' ', 2) if r.chance(1, 8) => s.push_str("\r "),
+                        (c, _) => s.push(c),
+                    }
+                }
+                *t = s;
+            }
+            Piece::Elem(e) => crlf_pieces(&mut e.children, r, mode),
+        }
+    }
 }
 
 pub fn run(ctx: &mut Ctx) {
@@ -154,6 +178,48 @@ pub fn run(ctx: &mut Ctx) {
         }
         let (rd, sp) = gen_ast_doc(seed, 2, i, true, is_c04 && i % 4 != 0);
         judge_one(ctx, &rd, &sp, &cfg, STEP, "ast-inline");
+    }
+    // ---- B2: long documents (hundreds of lines) with few removals
+    let total = 1_500 * scale;
+    for i in (shard..total).step_by(n as usize) {
+        if ctx.past(0.56) {
+            break;
+        }
+        let mut r = Rng::for_case(seed, 7, i);
+        let sp = sp_for(i);
+        let mut gc = GenCfg::block(*r.pick(&UNITS));
+        gc.words = gen::words_for(&[&sp]);
+        gc.max_items = 120 + r.below(200);
+        gc.holds_of_10 = if is_c04 { 0 } else { 2 };
+        gc.allow_inline = i % 2 == 0;
+        let mut d = gen_block_doc(&mut r, &gc);
+        if is_c04 {
+            make_nothing_ready(&mut d, &mut r);
+        }
+        let rd = render(&d, &sp);
+        judge_one(ctx, &rd, &sp, &cfg, STEP, "ast-long");
+    }
+    // ---- B3: carriage returns (mixed / pure CRLF, lone CR): '\r' is an ordinary character for
+    // the properties (only spaces, tabs and line breaks may disappear)
+    let total = 30_000 * scale;
+    for i in (shard..total).step_by(n as usize) {
+        if ctx.past(0.60) {
+            break;
+        }
+        let mut r = Rng::for_case(seed, 8, i);
+        let sp = sp_for(i);
+        let mut gc = GenCfg::block(*r.pick(&UNITS));
+        gc.words = gen::words_for(&[&sp]);
+        gc.allow_unwrap = false;
+        gc.allow_inline = i % 2 == 0;
+        let mut d = gen_block_doc(&mut r, &gc);
+        if is_c04 && i % 4 != 0 {
+            make_nothing_ready(&mut d, &mut r);
+        }
+        let mode = r.below(3);
+        crlf_pieces(&mut d, &mut r, mode);
+        let rd = render(&d, &sp);
+        judge_one(ctx, &rd, &sp, &cfg, STEP, "ast-cr");
     }
     // ---- C: bounded-exhaustive seam and unwrap layouts
     let words = WORDS.to_vec();
@@ -245,7 +311,7 @@ pub fn run(ctx: &mut Ctx) {
     // ---- F (C04 only): arbitrary tag-free junk
     if is_c04 {
         let total = 20_000 * scale;
-        let pool = ["x", " ", "\n", "\t", "あ", "<", ">", "/", "*", "-", "!", "\n\n", "  \n", "🎈", "=", "'", "\""];
+        let pool = ["x", " ", "\n", "\t", "あ", "<", ">", "/", "*", "-", "!", "\n\n", "  \n", "🎈", "=", "'", "\"", "\r\n", "\r"];
         for i in (shard..total).step_by(n as usize) {
             if ctx.out_of_time() {
                 break;
